@@ -115,4 +115,40 @@ Section Reach.
       + intros a b Ha. change PS.empty with PS.Leaf in Ha. rewrite PS.mem_Leaf in Ha. discriminate Ha.
     - apply universe_complete. exact Hp.
   Qed.
+  (** ** Soundness of [reach] whenever the traversal finished within its fuel (it always does for
+      [fuel_for]; the per-run fact [finished G roots = true] is checked by [vm_compute]).  With
+      completeness this makes the boolean check EXACT: it never flags a source that lies on no path. *)
+  Definition sinv (roots work : list positive) (seen : PS.t) : Prop :=
+    (forall n, PS.mem n seen = true -> path g roots n) /\ (forall n, In n work -> path g roots n).
+
+  Lemma go_sound roots : forall fuel work seen s,
+      go fuel work seen = Some s -> sinv roots work seen ->
+      forall n, PS.mem n s = true -> path g roots n.
+  Proof.
+    induction fuel as [|f IH]; intros work seen s Hgo [Hs Hw]; simpl in Hgo; [discriminate|].
+    destruct work as [|n w].
+    - inversion Hgo; subst. exact Hs.
+    - destruct (PS.mem n seen) eqn:Hm.
+      + apply (IH _ _ _ Hgo). split; [exact Hs|]. intros m Hin. apply Hw. right. exact Hin.
+      + apply (IH _ _ _ Hgo). split.
+        * intros m Hmem. apply mem_add_iff in Hmem. destruct Hmem as [Heq|Hmem].
+          -- subst m. apply Hw. left. reflexivity.
+          -- apply Hs. exact Hmem.
+        * intros m Hin. apply in_app_or in Hin. destruct Hin as [Hin|Hin].
+          -- apply path_step with n; [apply Hw; left; reflexivity|exact Hin].
+          -- apply Hw. right. exact Hin.
+  Qed.
+
+  Definition finished (roots : list positive) : bool :=
+    match go (fuel_for roots) roots PS.empty with Some _ => true | None => false end.
+
+  Theorem reach_sound roots :
+    finished roots = true -> forall n, PS.mem n (reach roots) = true -> path g roots n.
+  Proof.
+    unfold finished, reach. intros Hf n Hn.
+    destruct (go (fuel_for roots) roots PS.empty) as [s|] eqn:Hgo; [|discriminate].
+    apply (go_sound roots _ _ _ _ Hgo); [|exact Hn]. split.
+    - intros m Hm. change PS.empty with PS.Leaf in Hm. rewrite PS.mem_Leaf in Hm. discriminate Hm.
+    - intros m Hin. apply path_root. exact Hin.
+  Qed.
 End Reach.
